@@ -214,7 +214,7 @@ def run(ctx):
     # distance matrices with bounds, both engines, vs without
     M = ctx.scale(200, 2500)
     for _ in range(M):
-        k = rng.randint(2, 5)
+        k = rng.randint(2, 8)
         equal = rng.random() < 0.6
         n0 = rng.randint(1, 8)
         ss = [np.array(gen.series(rng, n0 if equal else rng.randint(1, 8))) for _ in range(k)]
@@ -223,6 +223,11 @@ def run(ctx):
         kw.pop("max_step", None)
         if not equal:
             kw.pop("penalty", None)
+            if rng.random() < 0.4:
+                # pairs that are skipped because of their lengths must not disturb the bound of the pairs after them
+                kw["max_length_diff"] = rng.choice([1, 2, 3])
+                ctx.count("matrices_with_max_length_diff")
+        par = rng.random() < 0.25       # the OpenMP route shares one settings structure between the threads
         for use_c in (False, True):
             with monitors.quiet():
                 base = dtw.distance_matrix(ss, compact=True, use_c=use_c, **kw)
@@ -237,7 +242,9 @@ def run(ctx):
             ctx.current("dm use_c=%s %r %r" % (use_c, [s.tolist() for s in ss], kwb))
             try:
                 with monitors.quiet():
-                    got = dtw.distance_matrix(ss, compact=True, use_c=use_c, **kwb)
+                    got = dtw.distance_matrix(ss, compact=True, use_c=use_c, parallel=bool(use_c and par), **kwb)
+                    if use_c and par:
+                        ctx.count("matrices_openmp")
             except Exception as e:
                 ctx.violation("exception", fn="dtw.distance_matrix", use_c=use_c, error=repr(e)[:300],
                               settings=dict(dtwmon.settings_key(kwb)))
